@@ -57,5 +57,33 @@ out.append("")
 out.append("%d seeded changes confirmed; %d caught by the quick tier of a registered check (%d by their own property's check)." % (
     len(rows), sum(1 for r in rows if r[5] != "-"),
     sum(1 for r in rows if r[5].startswith(r[0].split("-")[0]) or (r[0].split("-")[0] + " (") in r[5])))
+# which sub-check caught how many of the changes (own property's check)
+import collections, re
+per = collections.Counter()
+for d in sorted(glob.glob(os.path.join(ROOT, "seeded", "*"))):
+    mp = os.path.join(d, "meta.json")
+    if not os.path.exists(mp):
+        continue
+    m = json.load(open(mp))
+    own = os.path.basename(d).split("-")[0]
+    v = (m.get("confirmed_by_me", {}).get("checks") or {}).get(own)
+    if not v or v.get("verdict") != "CAUGHT":
+        continue
+    line = (v.get("lines") or [""])[-1]
+    mm = re.search(r"sub=(\S+)", line)
+    if mm:
+        sub = mm.group(1)
+    elif "/corpus/" in line:
+        sub = "(corpus replay)"
+    else:
+        sub = "?"
+    per[(own, sub)] += 1
+out.append("")
+out.append("## Seeded changes caught per sub-check (own property's check, last confirmation run)")
+out.append("")
+out.append("| Check | sub-check | changes caught |")
+out.append("|---|---|---|")
+for (own, sub), n in sorted(per.items()):
+    out.append("| %s | %s | %d |" % (own, sub, n))
 open(os.path.join(ROOT, "SEEDED.md"), "w").write("\n".join(out) + "\n")
 print("\n".join(out[-2:]))
